@@ -44,8 +44,97 @@ def showU : Res Unit → String
   | .err => "err"
   | .panic => "panic"
 
+/-! #### `seq`: a sequence of calls sharing one hash.Hash, one reader and one key object
+
+  `c23 seq <H> <N> <E> <D> <primes> <pre> <rnd> <step>,<step>,…`; a step is `:`-separated, its options `.`-separated:
+  `eo:msg:label` `do:ct:label` `ev:msg` `dv:ct` `ds:ct:key` `kd:ct:(nil|x|o.hash.mgf.label|p.len)`
+  `sp:hash:digest:(nil|sl.ohash)` `vp:hash:digest:sig:(nil|sl.ohash)` `s1:hash:digest` `v1:hash:digest:sig`
+  `ks:digest:(h.hash|s.sl.ohash)` `pc:qinv` `hw:bytes`.  Answer: the results joined by ` | `. -/
+
+def parsePSSOpts (s : String) : Option (Option PSSOpts) :=
+  if s == "nil" then some none
+  else match s.splitOn "." with
+    | [sl, oh] =>
+      (match parseInt sl, oh.toNat? with
+       | some sl, some oh => some (some ⟨sl, oh⟩)
+       | _, _ => none)
+    | _ => none
+
+def parseDecOpts (s : String) : Option DecOpts :=
+  if s == "nil" then some .nil
+  else if s == "x" then some .other
+  else match s.splitOn "." with
+    | ["o", h, mgf, label] =>
+      (match h.toNat?, mgf.toNat?, ofHex label with
+       | some h, some mgf, some label => some (.oaep h mgf label)
+       | _, _, _ => none)
+    | ["p", l] => (parseInt l).map DecOpts.v15
+    | _ => none
+
+def parseSignerOpts (s : String) : Option SignerOpts :=
+  match s.splitOn "." with
+  | ["h", h] => h.toNat?.map SignerOpts.hash
+  | ["s", sl, oh] =>
+    (match parseInt sl, oh.toNat? with
+     | some sl, some oh => some (.pss ⟨sl, oh⟩)
+     | _, _ => none)
+  | _ => none
+
+def parseStep (s : String) : Option Step :=
+  match s.splitOn ":" with
+  | ["eo", msg, label] =>
+    (match ofHex msg, ofHex label with
+     | some m, some l => some (.encOAEP m l)
+     | _, _ => none)
+  | ["do", ct, label] =>
+    (match ofHex ct, ofHex label with
+     | some c, some l => some (.decOAEP c l)
+     | _, _ => none)
+  | ["ev", msg] => (ofHex msg).map Step.encV15
+  | ["dv", ct] => (ofHex ct).map Step.decV15
+  | ["ds", ct, key] =>
+    (match ofHex ct, ofHex key with
+     | some c, some k => some (.sessKey c k)
+     | _, _ => none)
+  | ["kd", ct, opts] =>
+    (match ofHex ct, parseDecOpts opts with
+     | some c, some o => some (.keyDecrypt c o)
+     | _, _ => none)
+  | ["sp", h, dg, opts] =>
+    (match h.toNat?, ofHex dg, parsePSSOpts opts with
+     | some h, some dg, some o => some (.signPSS h dg o)
+     | _, _, _ => none)
+  | ["vp", h, dg, sig, opts] =>
+    (match h.toNat?, ofHex dg, ofHex sig, parsePSSOpts opts with
+     | some h, some dg, some sig, some o => some (.verifyPSS h dg sig o)
+     | _, _, _, _ => none)
+  | ["s1", h, dg] =>
+    (match h.toNat?, ofHex dg with
+     | some h, some dg => some (.signV15 h dg)
+     | _, _ => none)
+  | ["v1", h, dg, sig] =>
+    (match h.toNat?, ofHex dg, ofHex sig with
+     | some h, some dg, some sig => some (.verifyV15 h dg sig)
+     | _, _, _ => none)
+  | ["ks", dg, opts] =>
+    (match ofHex dg, parseSignerOpts opts with
+     | some dg, some o => some (.keySign dg o)
+     | _, _ => none)
+  | ["pc", qinv] => (parseNat qinv).map Step.precompute
+  | ["hw", b] => (ofHex b).map Step.hashWrite
+  | _ => none
+
+def seqLine (h n e d ps pre rnd steps : String) : String :=
+  match h.toNat?.bind hashAlg, parsePriv n e d ps pre, ofHex rnd, (steps.splitOn ",").mapM parseStep with
+  | some h, some k, some rnd, some steps =>
+    (match runSeq h ⟨k, [], rnd⟩ steps with
+     | some rs => " | ".intercalate (rs.map showB)
+     | none => "unmodelled")
+  | _, _, _, _ => "bad-op"
+
 def handle (args : List String) : String :=
   match args with
+  | ["seq", h, n, e, d, ps, pre, rnd, steps] => seqLine h n e d ps pre rnd steps
   | ["checkpub", n, e] =>
     (match parsePub n e with
      | some p => (match checkPub p with | .ok _ => "ok" | .err => "err" | .panic => "panic")
